@@ -16,6 +16,8 @@
                               that could be opened (queue empty or max_dial_negotiated substreams outstanding).
                               In particular a FAILED substream no longer counts as "being opened".
    P5 PendingCount            pending_requests() = queued requests + substreams currently being opened.
+   P6 ListenProtocol          listen_protocol() is the configured inbound protocol and timeout, as last changed through
+                              listen_protocol_mut; an idle handler does not keep the connection alive (trace spec only).
 
    The model transcribes the handler (dial_queue, dial_negotiated, events_out); `out` is the ground truth kept by the
    connection (the set of substream requests it is really working on).  DecOnError = FALSE is the code as found
